@@ -140,10 +140,20 @@ pub enum Payload {
     Field { idx: usize, flag: FlagV },
     RawField { which: Which, bytes: Hex, flag: FlagV },
     VecField { which: Which, idxs: Vec<usize> },
+    /// byzantine vector of field elements: honest length prefix, raw items
+    RawVecField { which: Which, items: Vec<Hex> },
     /// serialize_uncompressed / serialize_with_mode(Compress::No) of a pool element: not read back
     ElemUncompressed { idx: usize, as_: ElemAs },
     /// Display / Debug of a pool element into the formatter sink
-    Fmt { idx: usize, affine: bool, debug: bool, fail_at: Option<usize> },
+    Fmt {
+        idx: usize,
+        affine: bool,
+        debug: bool,
+        fail_at: Option<usize>,
+        /// `{:#?}` / `{:#}`: the formatter's alternate flag
+        #[serde(default)]
+        alternate: bool,
+    },
 }
 
 /// How the receiver pulls an element-shaped record from the stream.
